@@ -29,6 +29,26 @@ CHECKS = {
         note="Trusted: TLC, exact-domain encoding, ctypes struct layout of DTWSettings (checked against dd_dtw.h by "
              "construction). Only settings accepted by both engines are compared (no custom inner distance, "
              "max_length_diff != 0)."),
+    "C03": dict(
+        level="model_checking", design="DESIGN.md 4/C03",
+        technique="TLA+ state machine of PrunedDTW (DTWAlgo) model-checked against the declarative definition; recorded outputs trace-validated by TLC",
+        text="TLC proves for every case of the slice that the PrunedDTW row machine with its sc/ec column bounds (psi-aware) "
+             "never cuts a cell whose optimum is within the bound and returns DistSpec; a self-test requires TLC to refute "
+             "the psi-unaware design. Every recorded result of distance, distance_fast, warping_paths(_fast, compact), "
+             "distance_matrix(_fast) and the direct C call with max_dist / use_pruning is judged against the spec "
+             "(thresholds at half-integers of the cost lattice; pruning wherever ED is a valid bound, DTW = ED included).",
+        note="Trusted: TLC, exact-domain encoding. Thresholds within a rounding width of the true distance are not explored "
+             "(the property excludes them), except the pruning bound which equals attainable costs by construction."),
+    "C04": dict(
+        level="model_checking", design="DESIGN.md 4/C04",
+        technique="TLA+ cell-wise specification (OptMatrix, CellAllowed, MarksOK) judges recorded cost matrices of both engines and all layouts",
+        text="For every case the matrices returned by Python warping_paths, C warping_paths_fast (full, keep_int_repr, "
+             "psi_neg variants, via use_c) and a ctypes call writing the compact buffer of exactly the advertised size "
+             "followed by dtw_expand_wps / dtw_expand_wps_slice are recorded and TLC judges every cell against the "
+             "cell-wise optimum (with the freedom above max_dist, the -1 marks and unread border cells), the shape and "
+             "the returned distance.",
+        note="Trusted: TLC, exact-domain encoding, ctypes layout. Known finding: dtw_expand_wps_slice on proper sub-ranges "
+             "(see known_findings.jsonl)."),
 }
 
 NOT_YET = {
